@@ -29,6 +29,14 @@ T = {
  "C08b": ("C08", "polygon set where an earlier element has vertical limits and a later one has them undefined", "C08 quick", "roundtrip:Polygons:rewrite-differs"),
  "C11a": ("C11", "sparse x sparse product with both transposition flags and two different non-commuting operands", "C11 quick", "prodMatMat:sparse-kernel:sparse-eigen:TT:nonsquare"),
  "C11b": ("C11", "inverse of the dense Cholesky factor for order >= 3", "C11 quick", "chol-dense:triangles"),
+ "C13a": ("C13", "turning bands of a POWER model after an earlier POWER simulation with the same exponent and another scale (stale function-static constants)", "MISSED by C13 quick at the time of seeding (no other simulation between the two runs); harness extension requested", ""),
+ "C13b": ("C13", "conditional plurigaussian with a rule using the second GRF and data exactly on target nodes", "C13 quick", "pgs:facies-at-data"),
+ "C15a": ("C15", "matrix-free operator with an even number of Markov coefficients (param + ndim/2 odd)", "C15 quick", "opq:matrixfree-vs-assembled:turbo1d:matern"),
+ "C15b": ("C15", "turbo mesh both rotated and with unequal cell sizes", "C15 quick", "proj:affine-not-reproduced:turbo3d"),
+ "C18a": ("C18", "gaussianToRaw on >= 2 variables whose UIDs are not consecutive in locator order", "MISSED by C18 quick at the time of seeding (Db-level transforms driven on one variable); harness extension requested", ""),
+ "C18b": ("C18", "PCA/MAF on a Db with a selection or undefined values and non-centred variables", "C18 quick", "pca:factor-mean"),
+ "C19a": ("C19", "calculator run without input Db failing after pre-processing (e.g. non-conditional simtub with a structure turning bands cannot simulate)", "C19 quick", "rollback:fluid_propagation:addvar#2"),
+ "C19b": ("C19", "dbRegression with an explicit auxiliary Db different from the first one", "MISSED by C19 quick at the time of seeding (single-Db scenario only); harness extension requested", ""),
  "C09b": ("C09", "24/32-bit BMP whose colour-count header field exceeds 256", "MISSED by C09 quick at the time of seeding (BMP reader not in the corpus); harness extension requested", ""),
 }
 for seed, (prop, needs, caught, key) in T.items():
